@@ -24,6 +24,10 @@ structure RState where
   /-- items the producer never attempted: if > 0 its last logged send must have failed -/
   unsent : Nat := 0
   steps : Nat := 0
+  /-- the process was cut short by `process::exit(1)` in main: a worker whose logged events are
+  used up may have taken one more element from the queue without reaching its log call -/
+  ghost : Bool := false
+  ghosted : List Nat := []
 
 def fateOf (ws : List (List WEv)) (x : Item) : Fate :=
   if ws.any (fun evs => evs.any fun e => match e with | .rejected i => i == x | _ => false) then .reject
@@ -82,12 +86,14 @@ def movesAll (fate : Item → Fate) (r : RState) : List RState :=
             [{ r with s := step fate s (.finish k), ws := pre ++ [evs'] ++ post', steps := r.steps + 1 }] else []
         | .exit :: evs' =>
           if s.workers.getD k .idle == .exited then [{ r with ws := pre ++ [evs'] ++ post' }] else []
-        | [] => []
+        | [] =>
+          if r.ghost && !r.ghosted.contains k && enabled s (.recv k) then
+            [{ r with s := step fate s (.recv k), ghosted := k :: r.ghosted, steps := r.steps + 1 }] else []
       next ++ ws (k + 1) (pre ++ [evs]) post'
   p ++ ws 0 [] r.ws ++ m
 
 def keyOf (r : RState) : String :=
-  s!"{r.prod.length}/{r.mainEvs.length}/{r.ws.map List.length}/{repr r.s.mainPc}/{r.s.prodDead}/{r.s.prodDone}/{r.s.queue.length}"
+  s!"{r.prod.length}/{r.mainEvs.length}/{r.ws.map List.length}/{repr r.s.mainPc}/{r.s.prodDead}/{r.s.prodDone}/{r.s.queue.length}/{r.ghosted}"
 
 def allConsumed (r : RState) : Bool := r.prod.isEmpty && r.ws.all List.isEmpty && r.mainEvs.isEmpty
 
@@ -124,7 +130,8 @@ def parseMEv (t : String) : Option MEv :=
   if t == "j" then some .joined else if t == "t" then some .stopSend
   else if t == "w" then some .workerJoined else none
 
-/-- `pipe.replay <n> <rxMain 0|1> P:1,2,3 M:j,t,t,w,w W:r1,m1,s,e W:r2,m2,s,e` -/
+/-- `pipe.replay <n> <rxMain 0|1> P:1,2,3 M:j,t,t,w,w W:r1,m1,s,e W:r2,m2,s,e [G]`; a trailing `G`
+says the process ended through `process::exit(1)` while workers were still running -/
 def handlePipeReplay : List String → String
   | n :: rx :: p :: m :: ws =>
     let go : Option String := do
@@ -138,13 +145,15 @@ def handlePipeReplay : List String → String
       let prod ← (splitList plist ",").mapM String.toNat?
       let unsent := (List.range extra).map fun i => 1000000 + i
       let mevs ← (splitList (m.drop 2).toString ",").mapM parseMEv
+      let ghost := ws.getLast? == some "G"
+      let ws := if ghost then ws.dropLast else ws
       let wevs ← ws.mapM fun w => do
         guard (w.startsWith "W:")
         (splitList (w.drop 2).toString ",").mapM parseWEv
       guard (wevs.length = n)
       let fate := fateOf wevs
       let s0 := init n (rx == "1") (prod ++ unsent)
-      pure (replayLog fate 200000 [{ s := s0, prod := prod, ws := wevs, mainEvs := mevs, unsent := extra }] [])
+      pure (replayLog fate 200000 [{ s := s0, prod := prod, ws := wevs, mainEvs := mevs, unsent := extra, ghost := ghost }] [])
     go.getD "bad-op"
   | _ => "bad-op"
 
